@@ -304,7 +304,7 @@ async def e2e(net, hyg, plan):
         for (i, d, ok) in thr_d:
             if not ok:
                 viol.append({"key": "content-differs-under-throttle", "msg": f"{plan}: session {i} transferred wrong bytes"})
-        lims = [v for v in plan["limits"].values() if v]
+        lims = [v for k_, v in plan["limits"].items() if v and "timeout" not in k_]
         if lims:
             # configuration-level bounds: how many sessions share each configured limit
             def sharing(key):
@@ -313,7 +313,7 @@ async def e2e(net, hyg, plan):
                 if key.startswith("u_") and "per_connection" not in key:
                     return plan["same_user"]
                 return 1
-            direction_keys = [k for k, v in plan["limits"].items() if v and
+            direction_keys = [k for k, v in plan["limits"].items() if v and "timeout" not in k and
                               (("write" in k) == (plan["direction"] == "download") if k[0] in "su" else
                                ("read" in k) == (plan["direction"] == "download"))]
             size = size * ntrans
@@ -680,6 +680,17 @@ def gen_cases(tier, seed):
         nsess = rng.choice([1, 1, 2, 3])
         plans.append({"kind": "e2e", "seed": seed * 7 + i, "level": level, "direction": d, "limits": lim, "sessions": nsess,
                       "same_user": rng.randint(1, nsess), "size": rng.choice([1000, 20000, 60000]), "block": rng.choice([512, 8192])})
+    # a limit together with time-outs shorter than the pause a block costs: the pause is no I/O, nothing times out, the bound holds
+    for level in levels:
+        for d in ("download", "upload"):
+            lim = levels[level](8192, d)
+            # (the time-out sits on the side that pauses: the other side legitimately waits a block's time for its next bytes)
+            if level == "client":
+                lim["c_socket_timeout"] = 0.3
+            else:
+                lim["s_socket_timeout"] = 0.25
+            plans.append({"kind": "e2e", "seed": seed * 7 + len(plans), "level": level, "direction": d, "limits": lim, "sessions": 1, "same_user": 1,
+                          "size": 40960, "block": 8192})
     # a limit of 0 is "no limit" at every level: same bytes, no delay
     for level in levels:
         for d in ("download", "upload"):
